@@ -92,3 +92,18 @@ def corpus(seed, n, funcs=FUNCS):
                         model=rng.choice(['NRTL', 'UNIQUAC']), A=10 ** rng.uniform(-2, 0), m0=10 ** rng.uniform(-1, 1), T0=rng.uniform(300, 370), x0=rng.uniform(0.05, 0.6),
                         dt=10 ** rng.uniform(-2, -0.3), N=rng.randint(2, 8), Tp=rng.uniform(240, 290), pp=rng.uniform(0, 1.0), Tc=rng.choice([323.15, 333.15])))
     return out
+
+
+def series(case):
+    """real process run: the reported series and the constants of the mixture (for the recurrence == CPython differential)"""
+    model, pv, mix, mem, dcs, cond, kw = run(case)
+    def comp(c):
+        v, h = c.vapour_pressure_constants, c.heat_capacity_constants
+        return dict(M=c.molecular_weight, vpa=v.a, vpb=v.b, vpc=v.c, vptype=v.type, ca=h.a, cb=h.b, cc=h.c, cd=h.d)
+    return dict(N=kw['number_of_steps'], dt=kw['delta_hours'], A=cond.membrane_area, m0=cond.initial_feed_amount, T0=cond.initial_feed_temperature,
+                x0=cond.initial_feed_composition.p, Tp=cond.permeate_temperature, pp=cond.permeate_pressure, prec=kw['precision'],
+                c1=comp(mix.first_component), c2=comp(mix.second_component),
+                feed_mass=[float(v) for v in model.feed_mass], x=[float(c.p) for c in model.feed_compositions], T=[float(v) for v in model.feed_temperature],
+                y=[float(c.p) for c in model.permeate_composition], J=[[float(a), float(b)] for a, b in model.partial_fluxes],
+                P=[[float(a.value), float(b.value)] for a, b in model.permeances], Q=[float(v) for v in model.feed_evaporation_heat],
+                C=[None if v is None else float(v) for v in model.permeate_condensation_heat], time=[float(v) for v in model.time])
